@@ -61,6 +61,9 @@ def configs(tier, seed):
                         "own": own, "indexdep": False, "nt": nt})
     out.append({"name": "artifact-order3-shifted", "kind": "artifact", "order": 3, "own": False, "indexdep": True, "nt": 1,
                 "ng": 2 if tier == "quick" else 3})
+    for own in (False, True):
+        out.append({"name": f"artifact-order2-dispersed-{'own' if own else 'irf'}width", "kind": "artifact", "order": 2, "own": own,
+                    "indexdep": True, "disp": True, "nt": 1, "ng": 2})
     for sh in ("gaussian", "gaussian-noamp", "skewed"):
         out.append({"name": f"shape-{sh}", "kind": "shape", "shape": sh})
     for ax in ("inverted", "scaled", "plain"):
@@ -373,8 +376,16 @@ def build_artifact(cfg, val):
     from glotaran.builtin.megacomplexes.decay.irf import IrfMultiGaussian
 
     ng = cfg.get("ng", 1)
-    irf = IrfMultiGaussian(label="irf", center=[_param("mu", val("mu"))], width=[_param("sig", val("sig"))],
-                           shift=[_param(f"sh{i}", val(f"sh{i}")) for i in range(ng)] if cfg["indexdep"] else None)
+    if cfg.get("disp"):
+        from glotaran.builtin.megacomplexes.decay.irf import IrfSpectralMultiGaussian
+
+        irf = IrfSpectralMultiGaussian(label="irf", center=[_param("mu", val("mu"))], width=[_param("sig", val("sig"))],
+                                       dispersion_center=_param("lc", val("lc")),
+                                       center_dispersion_coefficients=[_param("cd0", val("cd0"))],
+                                       width_dispersion_coefficients=[_param("wd0", val("wd0"))])
+    else:
+        irf = IrfMultiGaussian(label="irf", center=[_param("mu", val("mu"))], width=[_param("sig", val("sig"))],
+                               shift=[_param(f"sh{i}", val(f"sh{i}")) for i in range(ng)] if cfg["indexdep"] else None)
     mc = CoherentArtifactMegacomplex(label="ca", order=cfg["order"], width=_param("w", val("w")) if cfg["own"] else None)
     return mc, types.SimpleNamespace(label="d1", irf=irf)
 
@@ -399,7 +410,13 @@ def _run_artifact(cfg, rec):
             ctx.assume(vals["sig"].e > 0)
             if cfg["own"]:
                 ctx.assume(vals["w"].e > 0)
-            gaxis = np.arange(ng, dtype=float) + 1.0
+            if cfg.get("disp"):
+                gaxis = _axis(ctx, "lam", ng)
+                for gi in range(ng):  # effective widths are positive (documented domain of the dispersion polynomial)
+                    ctx.assume(vals["sig"].e + vals["wd0"].e * (gaxis[gi].e - vals["lc"].e) / 100 > 0)
+                vals["__lam"] = gaxis
+            else:
+                gaxis = np.arange(ng, dtype=float) + 1.0
             labels, matrix = mc.calculate_matrix(dm, gaxis, t)
         return labels, matrix, t, vals
 
@@ -413,16 +430,22 @@ def _run_artifact(cfg, rec):
         matrix = np.asarray(matrix, dtype=object)
         items = [("labels coherent_artifact_<k>_<label> for k = 1..order",
                   z3.BoolVal(list(labels) == [f"coherent_artifact_{k}_ca" for k in range(1, cfg["order"] + 1)]), "basis:artifact:labels"),
-                 ("index dependent exactly when the IRF has a shift", z3.BoolVal((matrix.ndim == 3) == cfg["indexdep"]), "basis:artifact:index-dependence")]
+                 ("index dependent exactly when the IRF has a shift or dispersion", z3.BoolVal((matrix.ndim == 3) == cfg["indexdep"]), "basis:artifact:index-dependence")]
         w = vals["w"].e if cfg["own"] else vals["sig"].e
         for gi in range(ng):
-            c = vals["mu"].e - (vals[f"sh{gi}"].e if cfg["indexdep"] else 0)
+            if cfg.get("disp"):
+                d = (vals["__lam"][gi].e - vals["lc"].e) / 100
+                c = vals["mu"].e + vals["cd0"].e * d
+                if not cfg["own"]:
+                    w = vals["sig"].e + vals["wd0"].e * d
+            else:
+                c = vals["mu"].e - (vals[f"sh{gi}"].e if cfg["indexdep"] else 0)
             for a in range(nt):
                 g = ctx.uf("exp", -(t[a].e - c) * (t[a].e - c) / (2 * w * w))
                 want = [g, (c - t[a].e) / (w * w) * g, ((t[a].e - c) * (t[a].e - c) - w * w) / (w * w * w * w) * g]
                 for k in range(cfg["order"]):
                     got = matrix[gi, a, k] if matrix.ndim == 3 else matrix[a, k]
-                    items.append(("artifact column k = k-th time derivative of the IRF Gaussian at centre - shift_i with own-or-IRF width",
+                    items.append(("artifact column k = k-th time derivative of the IRF Gaussian at that index's effective centre, with the own or that index's IRF width",
                                   core.cross_eq(zreal(got), want[k]), f"basis:artifact:column{k + 1}"))
         rec.check_all(ctx, items, wit)
         rec.want_sample() and rec.sample({"labels": list(labels), "entry": str(zreal(matrix.flat[0]))[:120]})
@@ -616,12 +639,18 @@ def replay(data):
                 ng = cfg.get("ng", 1)
                 v = {"mu": float(rng.uniform(-0.3, 0.3)), "sig": float(rng.uniform(0.1, 0.5)), "w": float(rng.uniform(0.1, 0.5))}
                 v.update({f"sh{i}": float(rng.uniform(-0.3, 0.3)) for i in range(ng)})
+                v.update({"lc": 550.0, "cd0": float(rng.uniform(-0.2, 0.2)), "wd0": float(rng.uniform(0.02, 0.1))})
                 t = np.sort(rng.uniform(-1, 1, cfg["nt"] + 1))
                 mc, dm = build_artifact(cfg, lambda nm: v[nm])
-                labels, m = mc.calculate_matrix(dm, np.arange(ng, dtype=float) + 1, t)
+                gax = np.sort(rng.uniform(560, 700, ng)) if cfg.get("disp") else np.arange(ng, dtype=float) + 1
+                labels, m = mc.calculate_matrix(dm, gax, t)
                 w = v["w"] if cfg["own"] else v["sig"]
                 for gi in range(ng):
-                    c = v["mu"] - (v[f"sh{gi}"] if cfg["indexdep"] else 0)
+                    c = v["mu"] - (v[f"sh{gi}"] if cfg["indexdep"] and not cfg.get("disp") else 0)
+                    if cfg.get("disp"):
+                        c = v["mu"] + v["cd0"] * (gax[gi] - v["lc"]) / 100
+                        if not cfg["own"]:
+                            w = v["sig"] + v["wd0"] * (gax[gi] - v["lc"]) / 100
                     g = np.exp(-((t - c) ** 2) / (2 * w * w))
                     want = [g, (c - t) / w**2 * g, ((t - c) ** 2 - w * w) / w**4 * g]
                     for k in range(cfg["order"]):
